@@ -69,6 +69,9 @@ let handle (i : string list) (o : string list) =
            List.map (function OPkt p -> OPkt (canon_pkt p) | x -> x)
              (enc_run (nat_of_int (int_of_nat (total_shards blocks_buf) + 3)) c forces (est_init blocks_buf)) in
        let accepts = filedesc_accepts c in
+       (* wire image of the FEC payload id: reported by the harness when (sbn, esi) does not survive the field widths *)
+       if List.exists (fun t -> String.length t > 5 && String.sub t 0 5 = "WIRE:") rest then verdict_pfail "P_C08_wire_payload_id"
+       else
        if List.mem "REFUSED" rest then (if accepts then verdict_diff "model-accepts" else verdict_ok false)
        else if List.mem "ENCERR" rest then verdict_diff "ENCERR"
        else if not accepts then begin
